@@ -427,13 +427,22 @@ fn run_inner(sc: &Scenario, log: &mut Log, rep: &mut Report) -> Option<Violation
             let f = sfs::OpenOptions::new().read(true).write(true).create(true).open(FILES[i]).expect("create file");
             f.write_at(&data, 0).expect("initial write (set-up runs before the capacity is lowered)");
             f.sync_all().expect("sync");
-            if is_direct(i) {
+            let f = if is_direct(i) {
                 drop(f);
                 sfs::OpenOptions::new().read(true).write(true).direct_io(true).open(FILES[i]).expect("open O_DIRECT")
             } else {
                 f
+            };
+            // every other run works on duplicated descriptors (try_clone): same file, same flags, another fd
+            if sc.fs_seed >> 5 & 1 == 1 {
+                f.try_clone().expect("try_clone")
+            } else {
+                f
             }
         });
+        if sc.fs_seed >> 5 & 1 == 1 {
+            rep.probes.inc(if is_direct(i) { "o_direct_handle_duplicated_with_try_clone" } else { "handle_duplicated_with_try_clone" });
+        }
         model.open(i as u8, FILES[i], &flags);
         model.write_at(i as u8, 0, &data);
         model.sync_file(i as u8);
